@@ -104,6 +104,28 @@ Qed.
 Theorem gen_call : forall c a, ConditionCallback.call c a = c && a.
 Proof. intros c a. destruct c, a; reflexivity. Qed.
 
+(* the overloaded operators build a NEW node whose operands are exactly (self, other) -- the translated
+   bodies have no effect on their operands -- hence their documented Boolean meaning, for shared operands too *)
+Theorem gen_operators : forall p q : pred,
+  Operators.and_ PAnd POr PXor PNot p q = PAnd [p; q] /\ Operators.or_ PAnd POr PXor PNot p q = POr [p; q] /\
+  Operators.xor_ PAnd POr PXor PNot p q = PXor [p; q] /\ Operators.invert PAnd POr PXor PNot p = PNot p.
+Proof. intros p q. repeat split. Qed.
+
+Theorem gen_operator_meaning : forall v (p q : pred),
+  cond v (Operators.and_ PAnd POr PXor PNot p q) = cond v p && cond v q /\
+  cond v (Operators.or_ PAnd POr PXor PNot p q) = cond v p || cond v q /\
+  cond v (Operators.xor_ PAnd POr PXor PNot p q) = xorb (cond v p) (cond v q) /\
+  cond v (Operators.invert PAnd POr PXor PNot p) = negb (cond v p).
+Proof.
+  intros v p q. destruct (gen_operators p q) as (E1 & E2 & E3 & E4). rewrite E1, E2, E3, E4.
+  rewrite and_spec, or_spec, xor_spec, not_spec. unfold parity. cbn [forallb existsb map fold_right].
+  repeat split; destruct (cond v p), (cond v q); reflexivity.
+Qed.
+
+Theorem gen_set_action : forall (T A : Type) (c : T * option A) (a : A),
+  fst (Operators.set_action_callback c a) = fst c /\ snd (Operators.set_action_callback c a) = Some a.
+Proof. intros T A c a. split; reflexivity. Qed.
+
 (* ---- _RepeatedMetricChange.condition: the index-based while loop is the structural streak -- *)
 
 Lemma skipn_cons_nth : forall (h : list Z) s a r, skipn s h = a :: r -> nth s h 0 = a /\ skipn (S s) h = r.
